@@ -20,7 +20,11 @@ GENERATED = []
 RULE = ("case = (real directory chain of depth <=4 in a temporary directory, each level holding one of: nothing / name.py / "
         "name/__init__.py / both / a bare name/ directory without __init__.py; a collection name out of two; a start level; "
         "a start form: absolute, absolute with trailing separator, relative from an ancestor (os.chdir), relative with ./ and "
-        "trailing separator, ../.. from a deeper directory, no start at all (cwd)).  Every case runs the real "
+        "trailing separator, ../.. from a deeper directory, the absolute path of a deeper directory followed by /../.. (both `..` forms "
+        "preferably step out of a directory that holds a candidate), no start at all (cwd)).  Directories named like the collection: "
+        "all chains in which every directory below the base is `name/` (level i is the `name/` entry of level i-1: "
+        "name/name.py, name/name/name.py, a module next to and inside a package of that name) and random mixtures of plain "
+        "directories, `name/` and the other collection's name at every level.  Every case runs the real "
         "FilesystemLoader(start).load(name) (file, project dir, sys.path entry, sibling import executed by the loaded module); "
         "every k-th case also runs the real Program with -r/-c and reads the project-level invoke.yaml marker.  quick: all "
         "layouts of depth <=2 x all starts x all forms + random deeper ones; thorough: all layouts of depth <=4.  Virtual "
@@ -51,7 +55,7 @@ ASSUMPTIONS = ["POSIX paths; no symlinks on the way up (abspath does not resolve
 
 KINDS = ["none", "module", "package", "both", "baredir"]
 NAMES = ["tasks", "mycoll"]
-FORMS = ["abs", "trailing", "rel", "dotrel", "relup", "none"]
+FORMS = ["abs", "trailing", "rel", "dotrel", "relup", "absup", "none"]
 
 
 # ------------------------------------------------------------------ real trees
@@ -72,6 +76,11 @@ PACKAGE_SRC = ("MARK = %r\n"
                "    print('PROBE-RAN', MARK, c.config.get('marker', None))\n")
 
 
+# a package whose NAME contains a dot cannot use `from . import x` (Python resolves the parent package `a` of `a.b`);
+# the property only promises that sibling modules are importable: the package directory is on sys.path
+PACKAGE_SRC_PLAIN = PACKAGE_SRC.replace("from . import psib", "import psib")
+
+
 def write(path, text):
     with open(path, "w") as f:
         f.write(text)
@@ -82,11 +91,11 @@ def put_candidate(d, lvl, k, name):
     if k in ("module", "both"):
         write(os.path.join(d, name + ".py"), MODULE_SRC % ("%d:module" % lvl))
     if k in ("package", "both", "baredir"):
-        os.mkdir(os.path.join(d, name))
+        os.makedirs(os.path.join(d, name), exist_ok=True)
         write(os.path.join(d, name, "invoke.yaml"), "marker: P%d\n" % lvl)
         write(os.path.join(d, name, "psib.py"), "LEVEL = %d\n" % lvl)
     if k in ("package", "both"):
-        write(os.path.join(d, name, "__init__.py"), PACKAGE_SRC % ("%d:package" % lvl))
+        write(os.path.join(d, name, "__init__.py"), (PACKAGE_SRC_PLAIN if "." in name else PACKAGE_SRC) % ("%d:package" % lvl))
 
 
 def del_candidate(d, name):
@@ -96,21 +105,25 @@ def del_candidate(d, name):
 
 
 class Tree:
-    """base/d0/d1/...; level 0 is base itself"""
+    """base/d1/d2/...; level 0 is base itself.  `dirnames` (optional) gives the directories other names - in
+    particular the collection's own name: then the directory of level i IS the entry `name/` of level i-1 (whose kind
+    must be package, both or baredir), and a module inside it is `name/name.py`"""
 
-    def __init__(self, kinds, name):
+    def __init__(self, kinds, name, dirnames=None):
         self.kinds, self.name = list(kinds), name
+        self.dirnames = list(dirnames) if dirnames else ["base"] + ["d%d" % i for i in range(1, len(kinds))]
         self.root = os.path.realpath(tempfile.mkdtemp(prefix="verif_c20_"))
         try:
-            self.dirs = [os.path.join(self.root, "base")]
+            self.dirs = [os.path.join(self.root, self.dirnames[0])]
             os.mkdir(self.dirs[0])
             for i in range(1, len(kinds)):
-                self.dirs.append(os.path.join(self.dirs[-1], "d%d" % i))
+                self.dirs.append(os.path.join(self.dirs[-1], self.dirnames[i]))
                 os.mkdir(self.dirs[-1])
             for lvl, (d, k) in enumerate(zip(self.dirs, kinds)):
+                put_candidate(d, lvl, k, name)
+            for lvl, d in enumerate(self.dirs):  # last: a level that is also the `name/` entry of the level above keeps ITS marker
                 write(os.path.join(d, "sibmark.py"), "LEVEL = %d\n" % lvl)
                 write(os.path.join(d, "invoke.yaml"), "marker: L%d\n" % lvl)
-                put_candidate(d, lvl, k, name)
         except BaseException:
             shutil.rmtree(self.root, ignore_errors=True)  # nothing is left behind when building the tree fails half-way
             raise
@@ -158,10 +171,16 @@ def start_args(tree, s, form, rng):
         if form == "dotrel":
             rel = "./" + rel + "/"
         return rel, tree.dirs[c]
-    if form == "relup":
+    if form in ("relup", "absup"):
+        # `..` steps out of deeper directories: preferably out of one that holds a candidate (which is NOT at or above the start)
         c = rng.randrange(s, len(tree.dirs))
-        rel = "/".join([".."] * (c - s)) or "."
-        return rel, tree.dirs[c]
+        holding = [i for i in range(s + 1, len(tree.dirs)) if tree.kinds[i] in ("module", "package", "both")]
+        if holding and rng.random() < 0.8:
+            c = rng.choice(holding)
+        ups = "/".join([".."] * (c - s))
+        if form == "relup":
+            return ups or ".", tree.dirs[c]
+        return tree.dirs[c] + ("/" + ups if ups else "/."), tree.root
     raise ValueError(form)
 
 
@@ -869,7 +888,7 @@ def replay(case):
         at, why, _, _ = run_loader_history(case)
         return why is None, why or "ok (history of %d steps on %d loader object(s))" % (len(case["steps"]), len(case["loaders"]))
     import random
-    tree = Tree(case["kinds"], case["name"])
+    tree = Tree(case["kinds"], case["name"], case.get("dirnames"))
     try:
         rng = random.Random(case.get("sub", 0))
         startarg, cwd = start_args(tree, case["start"], case["form"], rng)
@@ -903,21 +922,33 @@ def run(ctx):
     lines, pending = [], []
     prog_every = 7 if big else 5
     counter = 0
-    for li, kinds in enumerate(layouts):
+    layouts = [(k, None) for k in layouts] + named_layouts(rng, ctx.n(70, 1200), 2 if not big else 3)
+    for li, (kinds, dirnames) in enumerate(layouts):
         name = NAMES[li % 2]
-        tree = Tree(kinds, name)
+        if dirnames is not None:
+            dirnames = [name if d == "<name>" else (NAMES[1 - li % 2] if d == "<other>" else d) for d in dirnames]
+        tree = Tree(kinds, name, dirnames)
         try:
             lay = tree.layout()
             for s in range(len(kinds)):
                 forms = FORMS
                 if big and len(kinds) == 5:
                     forms = ["abs"] + rng.sample(FORMS[1:], 2)
+                if dirnames is not None:
+                    forms = ["abs", "none"] + rng.sample(["trailing", "rel", "dotrel", "relup", "absup"], 2)
                 for form in forms:
                     sub = rng.randrange(1 << 30)
                     startarg, cwd = start_args(tree, s, form, random.Random(sub))
                     counter += 1
                     case = {"kind": "tree", "kinds": kinds, "name": name, "start": s, "form": form, "sub": sub,
                             "program": counter % prog_every == 0}
+                    if dirnames is not None:
+                        case["dirnames"] = dirnames
+                        out.hist["named_dirs"] += 1
+                        for i in range(len(kinds)):
+                            if dirnames[i] == name and kinds[i] in ("module", "both") and i <= s:
+                                out.hist["named_dirs:module_in_dir_named_like_it_at_or_above_start"] += 1
+                                break
                     r = run_loader(startarg, name, cwd)
                     why = oracle_loader(tree, s, r)
                     out.case(case, any(k != "none" for k in kinds))
@@ -978,6 +1009,36 @@ def run(ctx):
         if impl != mres:
             out.disagree(case, impl, mres)
     out.extra["exhaustive_layouts"] = n_exh
+    return out
+
+
+def named_layouts(rng, nrandom, maxdepth):
+    """layouts whose directories carry the collection's own name (`<name>`), the other collection's name or a plain one:
+    all chains in which EVERY directory below the base is `<name>/` (so level i is the entry `<name>/` of level i-1, whose
+    kind is therefore package, both or baredir; `<name>/<name>.py`, `<name>/<name>/<name>.py`, a module next to / inside a
+    package of that name), plus random mixtures"""
+    out = []
+    dirish = ["package", "both", "baredir"]
+    for depth in range(1, maxdepth + 1):
+        for upper in itertools.product(dirish, repeat=depth):
+            for last in KINDS:
+                for base in (["base"] if depth > 1 else ["base", "<name>"]):
+                    out.append((list(upper) + [last], [base] + ["<name>"] * depth))
+    for _ in range(nrandom):
+        levels = rng.choice([2, 3, 3, 4, 4])
+        dirnames = [rng.choices(["base", "<name>", "<other>"], [60, 30, 10])[0]]
+        kinds = []
+        for i in range(1, levels):
+            dirnames.append(rng.choices(["d%d" % i, "<name>", "<other>"], [35, 50, 15])[0])
+        for i in range(levels):
+            if dirnames[i] == "<name>":
+                kinds.append(rng.choices(KINDS, [15, 45, 15, 15, 10])[0])
+            else:
+                kinds.append(rng.choice(KINDS))
+        for i in range(1, levels):
+            if dirnames[i] == "<name>":  # the directory exists as an entry of the level above
+                kinds[i - 1] = {"none": "baredir", "module": "both"}.get(kinds[i - 1], kinds[i - 1])
+        out.append((kinds, dirnames))
     return out
 
 
